@@ -15,6 +15,7 @@ import Vicut.Model.Search
 import Vicut.Model.ExRef
 import Vicut.Model.Verbs
 import Vicut.Model.Pos
+import Vicut.Model.Repeat
 
 open Lean Vicut
 
@@ -396,6 +397,34 @@ def opPos (req : Json) : Json :=
     ("buf_len", Json.num (byteLen gs.flatten : Nat)),
     ("set_normal", clampJson sn.cur)]
 
+def rcmdOf (j : Json) : RCmd :=
+  let kind : VKind := match jstr j "kind" with
+    | "insertMode" => .insertMode | "change" => .change | "lineBreak" => .lineBreak
+    | "replaceMode" => .replaceMode | "normalMode" => .normalMode | _ => .other
+  { reg := jstr j "reg", kind := kind,
+    verb := (j.getObjValAs? String "verb").toOption,
+    vcount := jnat j "vcount",
+    payload := (j.getObjValAs? Nat "payload").toOption,
+    motion := (j.getObjValAs? String "motion").toOption,
+    mcount := jnat j "mcount", flags := jnat j "flags", repeatable := jbool j "repeatable" }
+
+def rcmdJson (c : RCmd) : Json :=
+  Json.mkObj [("reg", c.reg), ("verb", match c.verb with | some v => Json.str v | none => Json.null),
+    ("vcount", c.vcount), ("payload", match c.payload with | some v => Json.num (v : Nat) | none => Json.null),
+    ("motion", match c.motion with | some v => Json.str v | none => Json.null), ("mcount", c.mcount), ("flags", c.flags)]
+
+/-- `{"op":"dot","rep":{"single":cmd}|{"mode":[cmds],"reps":n}|null,"count":n}`: the commands `.` executes. -/
+def opDot (req : Json) : Json :=
+  let rj := (req.getObjVal? "rep").toOption.getD Json.null
+  let rep : Option Replay :=
+    match rj.getObjVal? "single" with
+    | .ok c => some (.single (rcmdOf c))
+    | .error _ =>
+      match rj.getObjVal? "mode" with
+      | .ok (.arr a) => some (.mode (a.toList.map rcmdOf) (jnat rj "reps"))
+      | _ => none
+  Json.mkObj [("execs", Json.arr ((dotExecs rep (jnat req "count")).map rcmdJson).toArray)]
+
 def dispatch (req : Json) : Json :=
   match jstr req "op" with
   | "ping" => Json.mkObj [("pong", true)]
@@ -412,6 +441,7 @@ def dispatch (req : Json) : Json :=
   | "global" => opGlobal req
   | "verb" => opVerb req
   | "pos" => opPos req
+  | "dot" => opDot req
   | op => Json.mkObj [("err", Json.str s!"unknown op {op}")]
 
 partial def loop (h : IO.FS.Stream) (out : IO.FS.Stream) : IO Unit := do
